@@ -88,6 +88,7 @@ type streamSide struct {
 	hungUp     *bool // set once this side has closed
 	peerHungUp *bool // set once the peer has closed: EOF is then the proper end
 	endReads   int
+	endSeen    bool // the end of the stream has been reported to this side's reader
 	ending     *bool
 }
 
@@ -172,12 +173,19 @@ func (sd *streamSide) start(c *harness.Ctx, conn net.Conn, prop string) {
 				// the peer hung up: the stream ends here.  Everything it wrote
 				// must be readable: an application that reads on while data keeps
 				// coming gets all of it (completeness is judged by the run)
+				sd.endSeen = true
 				if n == 0 {
 					if sd.endReads++; sd.endReads >= 3 {
 						return
 					}
 				}
 				continue
+			}
+			if err != nil && n == 0 && sd.endSeen {
+				// reading on after the end of the stream has been reported: any
+				// error will do (obfs3 closes its connection when the end arrives
+				// during its magic scan and reports that from then on)
+				return
 			}
 			if err != nil {
 				sd.rdErr = err
